@@ -11,4 +11,4 @@ Extraction "../extract/gen/c06.ml"
   replay_trace max_iterations cap_reports_diagnostic clean_needs_no_new_symbols clean_needs_no_changed_symbols
   stmt_align stmt_data stmt_pc_then_byte stmt_segment_then_byte align_padding name_from_string identifier_new loop_iterations loop_enter
   segment_emit target_pc source_map_add branch_base branch_offset pc_from_i64 import_depth macro_depth nesting_depth
-  codegen_enter parser_enter bank_padding nested_call_of_same_function nesting_depth_limit parser_nesting_limit loop_count_limit bank_size_limit.
+  codegen_enter parser_enter prg_header spanless_clash bank_padding nested_call_of_same_function nesting_depth_limit parser_nesting_limit loop_count_limit bank_size_limit.
